@@ -6,6 +6,11 @@
 mod child;
 mod engine;
 mod envprobe;
+mod fsapply;
+mod fsdrive;
+mod fsgen;
+mod fsmodel;
+mod fstypes;
 mod obs;
 mod props;
 mod refpath;
